@@ -1,5 +1,5 @@
 CONSTANT MaxIns = 2
 INIT Init
-NEXT Next
+NEXT PairNext
 INVARIANT PrintReplay
 CHECK_DEADLOCK FALSE
